@@ -150,6 +150,7 @@ struct Interp
    void Run()
    {
       Cfg cfg(plan);
+      sim.stallUs = (uint64_t) std::max<long long>(0, cfg.i("stall", 0));
       size_t opIdx = 0;
       for (const std::string & line : plan)
       {
@@ -222,8 +223,8 @@ struct Interp
          }
          else if (k == "close") {Conn * c = sim.UpC(ci); if (c) {c->c2s.closed = true; if (c->departedHow.empty()) c->departedHow = "close"; sim.st.inc("f.client_close");}}
          else if (k == "reset") {Conn * c = sim.UpC(ci); if (c) {c->s2c.broken = true; c->c2s.closed = true; c->departedHow = "reset"; sim.st.inc("f.reset_on_write");}}
-         else if ((k == "advance")&&(t.size() >= 2)) {SimClockAdvance(ToU(t[1])); sim.st.inc("f.clock_jump");}
-         else if (k == "idle") {if ((sim.nextPulse != MUSCLE_TIME_NEVER)&&(sim.nextPulse > g_simNowUs)) {g_simNowUs = sim.nextPulse; sim.st.inc("idle_jumps");}}
+         else if ((k == "advance")&&(t.size() >= 2)&&(sim.stallUs == 0)) {SimClockAdvance(ToU(t[1])); sim.st.inc("f.clock_jump");}
+         else if (k == "idle") {if ((sim.stallUs == 0)&&(sim.nextPulse != MUSCLE_TIME_NEVER)&&(sim.nextPulse > g_simNowUs)) {g_simNowUs = sim.nextPulse; sim.st.inc("idle_jumps");}}
          else if (((k == "srvclone")||(k == "srvrestore"))&&(t.size() >= 5))
          {
             // a server-side clone / save+restore of one of this session's subtrees (no client command involved)
@@ -234,7 +235,9 @@ struct Interp
             if (sim.orc.index) sim.CheckIndexWellFormed();
             if (sim.orc.marks) sim.CheckMarks("after a server-side subtree clone/restore");
          }
+         else if (k == "ghost") sim.GhostConnect();
          else if (k == "quiesce") sim.Quiesce("quiesce op");
+         else if ((k == "slowq")&&(t.size() >= 4)) sim.SlowQuiesce((int) ToI(t[1]), (uint32_t) ToU(t[2]), (int) ToI(t[3]));
       }
       SetCurOp("final quiesce"); WatchdogArm(0);
       sim.Quiesce("end of run");
